@@ -7,7 +7,7 @@ import numpy
 from hypothesis import strategies as st
 
 from pbt import files, gridded as G
-from pbt.core import call
+from pbt.core import call, workdir
 
 PROP = "C10"
 TECHNIQUE = "Hypothesis-generated catalog forecasts and observations vs. independent implementation of the statistics in docs/getting_started/theory.rst (Savran et al. 2020) and the Serafini et al. docstrings, from reference-gridded counts; explicit-signalling clauses checked as required outcomes"
@@ -110,7 +110,7 @@ def check_case(ctx, case):
     wobs = S.counts(obs)
     n_obs = len(obs)
 
-    with tempfile.TemporaryDirectory() as d:
+    with workdir() as d:
         def forecast():
             region = S.region()
             if case["source"] == "list":
@@ -152,6 +152,23 @@ def check_case(ctx, case):
                 ctx.violation("N:distribution_or_statistic_wrong", {"td": list(r.test_distribution), "want": sizes})
             elif tuple(float(x) for x in r.quantile) != quantiles(sizes, n_obs):
                 ctx.violation("N:quantile_wrong", {"got": list(r.quantile), "want": quantiles(sizes, n_obs)})
+        # ---------------- number test again on ONE forecast object whose filter is switched on in between: the distribution is made
+        # of the catalogs the forecast yields now (sizes counted above the second magnitude edge), not of remembered sizes
+        if S.nm >= 2 and case["source"] != "file_store":
+            fc = call(forecast)
+            if fc.ok:
+                o1 = call(CE.number_test, fc.value, observed(), verbose=VB)
+                fc.value.filters = ["magnitude >= %r" % S.edges[1]]
+                fc.value.apply_filters = True
+                o2 = call(CE.number_test, fc.value, observed(), verbose=VB)
+                sizes2 = [sum(1 for _, m in c if m >= 1) for c in cats]
+                if o1.ok and o2.ok:
+                    ctx.count("number_test_after_filter_change")
+                    td2 = ctx.normalize("N:after_filter_change", lambda: list(o2.value.test_distribution))
+                    if td2 is not None and td2 != sizes2:
+                        ctx.violation("N:stale_sizes_after_filter_change", {"first": list(o1.value.test_distribution)[:10], "second": td2[:10], "want": sizes2[:10]})
+                elif not o2.ok:
+                    ctx.unexpected(o2, "number_test:after_filter_change")
         # ---------------- spatial / pseudo-likelihood
         tot = math.fsum(sp.tolist())
 
